@@ -93,7 +93,7 @@ Proof.
   repeat split; try assumption.
   - destruct (find_row spec (row_name r)) as [[o b]|]; [|discriminate].
     apply andb_prop in H3. destruct H3 as [Ho Hb]. apply Nat.eqb_eq in Ho. apply N.eqb_eq in Hb. subst. reflexivity.
-  - intros f. unfold accessor.
+  - intros f. unfold accessor, accessor_mask, accessor_m.
     destruct (find (fun e => String.eqb (fst e) (row_name r)) tbl) as [e|]; [|discriminate].
     apply N.eqb_eq in H4. rewrite H4. unfold row_mask. apply flag_pow2_testbit.
 Qed.
@@ -203,8 +203,22 @@ Qed.
 
 (* ------------------------------------------------------------------ IE() *)
 
+Lemma put_le_eq n v : put_le n v = le_bytes n v.
+Proof.
+  revert v. induction n as [|n IH]; intros v; cbn [put_le le_bytes]; [reflexivity|].
+  rewrite IH. change 255 with (N.ones 8). rewrite N.land_ones. rewrite N.shiftr_div_pow2. reflexivity.
+Qed.
+
 Lemma ie3 f : ie_octets 3 f = Some (le_bytes 3 (f mod 4294967296)).
-Proof. reflexivity. Qed.
+Proof.
+  unfold ie_octets. cbn [Nat.leb]. rewrite put_le_eq.
+  change 4294967295 with (N.ones 32). rewrite N.land_ones. reflexivity.
+Qed.
+
+Lemma rt_ie3 f : rt_ie f = Some (le_bytes 3 (f mod 4294967296)).
+Proof. unfold rt_ie, rt_ie_octets. apply ie3. Qed.
+Lemma usar_ie3 f : usar_ie f = Some (le_bytes 3 (f mod 4294967296)).
+Proof. unfold usar_ie, usar_ie_octets. apply ie3. Qed.
 
 Lemma encode_core spec tbl f r : table_ok 3 spec tbl = true -> In r spec ->
   spec_flag spec (row_name r) (le_bytes 3 (f mod 4294967296)) = accessor tbl (row_name r) f.
@@ -225,7 +239,7 @@ Theorem rt_encode f r : In r rt_spec ->
             spec_flag rt_spec (row_name r) p = accessor rpt_accessors (row_name r) f.
 Proof.
   intros Hr. exists (le_bytes 3 (f mod 4294967296)).
-  split; [reflexivity|]. split; [apply le_bytes_length|]. split; [apply bytes_ok_le_bytes|].
+  split; [apply rt_ie3|]. split; [apply le_bytes_length|]. split; [apply bytes_ok_le_bytes|].
   apply encode_core; [exact rt_table_ok|assumption].
 Qed.
 
@@ -234,7 +248,7 @@ Theorem usar_encode f r : In r usar_spec ->
             spec_flag usar_spec (row_name r) p = accessor usar_accessors (row_name r) f.
 Proof.
   intros Hr. exists (le_bytes 3 (f mod 4294967296)).
-  split; [reflexivity|]. split; [apply le_bytes_length|]. split; [apply bytes_ok_le_bytes|].
+  split; [apply usar_ie3|]. split; [apply le_bytes_length|]. split; [apply bytes_ok_le_bytes|].
   apply encode_core; [exact usar_table_ok|assumption].
 Qed.
 
@@ -248,10 +262,10 @@ Qed.
 
 (* the octets themselves; the third is 0 when no flag of octet 7 is set *)
 Lemma rt_ie_octets_eq f : f < 16777216 -> rt_ie f = Some [f mod 256; (f / 256) mod 256; f / 65536].
-Proof. intros Hf. unfold rt_ie, rt_ie_octets. rewrite ie3, le_bytes3 by assumption. reflexivity. Qed.
+Proof. intros Hf. rewrite rt_ie3, le_bytes3 by assumption. reflexivity. Qed.
 
 Lemma usar_ie_octets_eq f : f < 16777216 -> usar_ie f = Some [f mod 256; (f / 256) mod 256; f / 65536].
-Proof. intros Hf. unfold usar_ie, usar_ie_octets. rewrite ie3, le_bytes3 by assumption. reflexivity. Qed.
+Proof. intros Hf. rewrite usar_ie3, le_bytes3 by assumption. reflexivity. Qed.
 
 Lemma ie_third_zero f : f < 65536 -> f / 65536 = 0.
 Proof. intros Hf. apply N.div_small. assumption. Qed.
@@ -259,7 +273,7 @@ Proof. intros Hf. apply N.div_small. assumption. Qed.
 (* decode after encode gives the flags back *)
 Lemma rt_roundtrip f : f < 16777216 -> exists p, rt_ie f = Some p /\ rt_unmarshal_res p = UOk f.
 Proof.
-  intros Hf. exists (le_bytes 3 (f mod 4294967296)). split; [reflexivity|].
+  intros Hf. exists (le_bytes 3 (f mod 4294967296)). split; [apply rt_ie3|].
   rewrite rt_unmarshal_value by (rewrite le_bytes_length; cbn; auto).
   rewrite le_val_le_bytes. rewrite (N.mod_small f 4294967296) by lia.
   replace (2 ^ (8 * N.of_nat 3)) with 16777216 by reflexivity.
@@ -444,6 +458,10 @@ Proof. repeat split; vm_compute; reflexivity. Qed.
 
 (* ------------------------------------------------------------------ the monitors accept the model *)
 
+Lemma accmask_cons tbl x names flags :
+  accmask tbl (x :: names) flags = (if accessor tbl x flags then 1 else 0) + 2 * accmask tbl names flags.
+Proof. reflexivity. Qed.
+
 Lemma accmask_bit tbl names flags n i :
   NoDup names -> index_of n names 0 = Some i ->
   N.testbit (accmask tbl names flags) i = accessor tbl n flags.
@@ -451,7 +469,7 @@ Proof.
   intros Hnd. assert (G : forall k j, index_of n names k = Some j ->
                         k <= j /\ N.testbit (accmask tbl names flags) (j - k) = accessor tbl n flags).
   { induction names as [|x names IH]; intros k j Hj; cbn [index_of] in Hj; [discriminate|].
-    inversion Hnd as [|? ? Hx Hnd']; subst. cbn [accmask].
+    inversion Hnd as [|? ? Hx Hnd']; subst. rewrite accmask_cons.
     destruct (String.eqb_spec x n) as [->|Hne].
     - inversion Hj; subst. split; [lia|]. rewrite N.sub_diag.
       destruct (accessor tbl n flags).
@@ -533,13 +551,13 @@ Theorem rt_encode_mon_model names f : NoDup names -> names_mon rt_spec names = t
   match rt_ie f with
   | Some p => encode_mon (prep rt_spec names) f (accmask rpt_accessors names f) StOk p
   | None => false end = true.
-Proof. intros Hnd Hn. apply (encode_mon_core rt_spec rpt_accessors names f rt_table_ok Hnd Hn). Qed.
+Proof. intros Hnd Hn. rewrite rt_ie3. apply (encode_mon_core rt_spec rpt_accessors names f rt_table_ok Hnd Hn). Qed.
 
 Theorem usar_encode_mon_model names f : NoDup names -> names_mon usar_spec names = true ->
   match usar_ie f with
   | Some p => encode_mon (prep usar_spec names) f (accmask usar_accessors names f) StOk p
   | None => false end = true.
-Proof. intros Hnd Hn. apply (encode_mon_core usar_spec usar_accessors names f usar_table_ok Hnd Hn). Qed.
+Proof. intros Hnd Hn. rewrite usar_ie3. apply (encode_mon_core usar_spec usar_accessors names f usar_table_ok Hnd Hn). Qed.
 
 Theorem srt_mon_model f r : srt_mon f r StOk (set_reporting_trigger f r) = true.
 Proof. unfold srt_mon. rewrite srt_all. cbn [status_eqb andb]. apply N.eqb_refl. Qed.
